@@ -78,7 +78,9 @@ class ClosestIndex(ParameterTransformation):
                     allowed_inv_perms = jnp.array(
                         [jnp.linalg.inv(perm.reshape(3, 3)).flatten() for perm in allowed_perm_array]
                     )
-                dist = jnp.abs(arr[..., None] - allowed_inv_perms)
+                # allowed_inv_perms has shape (num_materials, num_components): compare every voxel with every
+                # material (summed over the tensor components) and pick the closest material per voxel
+                dist = jnp.abs(arr[..., None, None] - allowed_inv_perms).sum(axis=-1)
                 discrete = jnp.argmin(dist, axis=-1)
             else:
                 discrete = jnp.clip(jnp.round(arr), 0, len(self._materials) - 1)
